@@ -125,6 +125,8 @@ def check_case(ctx, c):
         ok[0] = False
         ctx.violation("C17/%s" % clause, what, c, detail, sig=_sig(c))
 
+    if float(np.max(np.abs(ref))) < 1e-12:
+        return ctx.skip("degenerate: every column is proportional to the row masses (weights are 0/0 by construction)")
     L = layouts(A, rs, c["zeros_at"])
     base = None
     for name, X in L.items():
